@@ -416,7 +416,15 @@ def sc(cx):
             d = _Obj("dtype", {"name": name, "itemsize": SIZES.get(name, 16), "str": name}, name=f"dtype({name})")
 
             def conv(v=0):
-                return _Obj("npscalar", {"tobytes": _B("tobytes", lambda: ("bytes-of", name, v)), "dtype": d}, name=f"{name}({v!r})")
+                # dtype.type(x): one number for a scalar x, an ARRAY for a sequence x (its bytes are len(x) items long)
+                count = len(v) if isinstance(v, (list, tuple)) else 1
+
+                def tobytes():
+                    b_ = _Obj("bytes", {"__len__": _B("len", lambda: count * SIZES.get(name, 16))}, name=f"bytes-of {name}({v!r})")
+                    b_.src = ("bytes-of", name, v)
+                    return b_
+
+                return _Obj("npscalar", {"tobytes": _B("tobytes", tobytes), "dtype": d}, name=f"{name}({v!r})")
 
             d.attrs["type"] = _B(f"{name}.type", conv)
             made[name] = d
@@ -474,9 +482,22 @@ def sc(cx):
         cx.check(okr, None, construct=f"{nm}._from_buffer: element 0 of frombuffer(to_bytearray(offset, {size}), dtype('{dt}'))", detail="reads exactly its own bytes and decodes them with its dtype",
                  bad_detail=f"read is {r!r} after {rd!r}", sub="read", anchor=anchor + "._from_buffer")
         w = out["w"]
-        okw = len(w) == 1 and w[0][0] == "update_from_buffer" and w[0][1].get("offset") == OFFS and isinstance(w[0][1].get("source"), tuple) and w[0][1]["source"][:2] == ("bytes-of", dt) and isinstance(w[0][1]["source"][2], _Op) and w[0][1]["source"][2].tag == "val"
+        srcw = getattr(w[0][1].get("source"), "src", None) if len(w) == 1 else None
+        okw = len(w) == 1 and w[0][0] == "update_from_buffer" and w[0][1].get("offset") == OFFS and isinstance(srcw, tuple) and srcw[:2] == ("bytes-of", dt) and isinstance(srcw[2], _Op) and srcw[2].tag == "val"
         cx.check(okw, None, construct=f"{nm}._to_buffer: update_from_buffer(offset, dtype('{dt}').type(value).tobytes())", detail="value converted with its dtype, its bytes written at offset",
                  bad_detail=f"write is {[(k, {a: repr(b) for a, b in dct.items()}) for k, dct in w]}", sub="write", anchor=anchor + "._to_buffer")
+        # a SEQUENCE given for one number must not be written (its bytes are longer than the slot)
+        k1 = len(log)
+        seq_exc = None
+        try:
+            r2 = I.explore(lambda: I.call(I.getattr(T, "_to_buffer"), [buf, OFFS, [7, 8, 9]], {}), max_paths=4)
+            seq_exc = r2[0]["exc"] if len(r2) == 1 else "fork"
+        except AnalysisError as e_:
+            seq_exc = "fork"
+        wrote = [e_ for e_ in log[k1:] if e_[0] == "update_from_buffer"]
+        cx.recog(seq_exc != "fork", None, f"scalar {nm}: _to_buffer of a sequence: evaluation forks")
+        cx.check(seq_exc is not None and not wrote, None, construct=f"{nm}._to_buffer(buffer, offset, [7, 8, 9])", detail="a sequence is refused for a scalar slot, nothing is written",
+                 bad_detail=f"a 3-item sequence is written into the {size}-byte slot of one {nm} ({3 * size} bytes): the next field / item / object is overwritten", sub="write.len", anchor=anchor + "._to_buffer")
         aw = out["aw"]
         cx.check(len(aw) == 1 and aw[0][0] == "update_from_buffer" and aw[0][1].get("offset") == OFFS and aw[0][1].get("source") == ("array-bytes",), None, construct=f"{nm}._array_to_buffer: update_from_buffer(offset, value.tobytes())", detail="array bytes written at offset",
                  bad_detail=f"array write is {aw!r}", sub="array-write", anchor=anchor + "._array_to_buffer")
